@@ -659,3 +659,44 @@ func checkCipherPurity(c *cryptoCtx, names [][2]string) {
 		}
 	}
 }
+
+// checkDriverLength (drv.length): the keystream drivers return exactly the requested number of
+// words for EVERY requested count (E3, count symbolic in 0..2^22).  The driver checks evaluate
+// the drivers at a few concrete counts; a cap or a rounding of the count elsewhere in its range
+// (e.g. nil beyond some maximum) would be invisible to them and silently truncates the keystream
+// of long payloads.
+func checkDriverLength(c *cryptoCtx) {
+	for _, g := range [][3]string{{"security/snow3g", "GetKeyStream", "n"}, {"security/zuc", "Zuc", "wlength"}} {
+		f := c.w.LookupFunc(g[0], g[1])
+		c.r.Site("drv.length")
+		if f == nil {
+			c.r.Fail("anchor", g[0]+"."+g[1], "missing", 0, "generator not found", nil)
+			continue
+		}
+		sr := runSecurity(c.w, f, map[string]Itv{g[2]: {0, 1 << 22}, "!nonnil": {}}, false)
+		ok, why := false, "the result length is not resolvable"
+		var cnt AVal
+		found := false
+		for i, p := range sr.fn.Params {
+			if p.Name() == g[2] {
+				cnt, found = sr.arg[i], true
+			}
+		}
+		if !found || cnt.Kind != avInt || cnt.Lin == nil {
+			why = "the word-count parameter " + g[2] + " is not an integer parameter any more"
+		} else if !sr.res.none && len(sr.res.vals) == 1 && sr.res.vals[0].Len != nil {
+			d := sr.res.vals[0].Len.add(cnt.Lin, -1)
+			if sr.res.st.prove(d) && sr.res.st.prove(d.scale(-1)) {
+				ok = true
+			} else {
+				why = fmt.Sprintf("cannot show len(result) == %s for every %s in 0..2^22: length in %v", g[2], g[2], sr.res.st.linItv(sr.res.vals[0].Len))
+			}
+		}
+		if ok {
+			c.r.OK("drv.length")
+		} else {
+			c.r.Fail("drv.length", FuncName(f), "result length", f.Pos(), "the keystream driver does not return exactly the requested number of words: "+why, nil)
+		}
+	}
+	c.r.Expect("drv.length", 2)
+}
